@@ -12,6 +12,7 @@ From IE Require Import Lib.Tbl Lib.C05Lib Lib.C02Lib Gen.Codepage Gen.Formats Ge
   Proofs.C02Proofs Proofs.C02IcyProofs Proofs.C02DispatchProofs.
 From IE Require Model.Sauce Proofs.SauceProofs Props.C11 Lib.C17Lib Model.Font Model.Tdf Props.C17 Model.PaletteFiles.
 From IE Require Import Model.C02Text Proofs.C02TextProofs.
+From IE Require Import Gen.C02Pal Model.C02Pal Proofs.C02PalProofs.
 From IE Require Model.TermCore Model.FileCore Gen.FileAnsiTok Gen.FileEmu Gen.FilePetscii Proofs.FileInv Gen.FileAnsiSafeW Gen.FileEmuSafeW Model.FileLoad Proofs.FileLoadProofs.
 Import ListNotations.
 
@@ -31,29 +32,42 @@ Proof. exact C17.from_bytes_total. Qed.
 Theorem tdf_from_bytes_total : forall (lossy : list N -> list N) bytes, C17Lib.safe (Tdf.from_tdf_bytes lossy bytes).
 Proof. exact C17.from_tdf_total. Qed.
 
-(* Palette::load_palette: the five implemented formats are regex / str::parse pipelines without any index, slice or
-   arithmetic that can fail; their model (C16, Model/PaletteFiles.v) is a total function into `option`
-   (None = Err(..)).  The sixth public format is a stub: known finding C02-ase-todo. *)
-Inductive palette_format := PIce | PHex | PPal | PGpl | PTxt | PAse.
-Definition palette_model (f : palette_format) : option PaletteFiles.format :=
-  match f with PIce => Some PaletteFiles.Ice | PHex => Some PaletteFiles.Hex | PPal => Some PaletteFiles.Pal
-             | PGpl => Some PaletteFiles.Gpl | PTxt => Some PaletteFiles.Txt | PAse => None end.
-Definition KnownC02_1 (f : palette_format) : Prop := f = PAse.       (* `PaletteFormat::Ase => todo!()` *)
+(* Palette::load_palette / Palette::export_palette, for ALL SIX variants of `enum PaletteFormat` (Model/C02Pal.v).
+   The variants and the class of every `match` arm are generated from the source (Gen/C02Pal.v).  The five text formats
+   are regex / str::parse pipelines without any index, slice or arithmetic that can fail; their model (C16,
+   Model/PaletteFiles.v) is a total function into `option` (None = Err(..)).  PaletteFormat::Ase has no reader / writer:
+   load_palette returns Err, export_palette (Vec<u8>, no error channel) logs and returns an empty vector.
+   Before the fix of finding C02-ase-todo both arms were `todo!()`: known_1_witness, on the old arm table todo_arm. *)
+Theorem palette_load_total : forall f s, palette_load f s <> PalPanic.
+Proof. exact palette_load_total_proof. Qed.
 
-Theorem palette_load_total : forall f, ~ KnownC02_1 f -> exists m, palette_model f = Some m /\
-  forall s, PaletteFiles.load m s = None \/ exists l, PaletteFiles.load m s = Some l.
-Proof.
-  exact (fun f H => match f as f0 return (~ KnownC02_1 f0 -> exists m, palette_model f0 = Some m /\
-                        forall s, PaletteFiles.load m s = None \/ exists l, PaletteFiles.load m s = Some l) with
-                    | PAse => fun H => False_ind _ (H eq_refl)
-                    | _ => fun _ => ex_intro _ _ (conj eq_refl (fun s =>
-                             match PaletteFiles.load _ s as o return (o = None \/ exists l, o = Some l) with
-                             | None => or_introl eq_refl | Some l => or_intror (ex_intro _ l eq_refl) end))
-                    end H).
-Qed.
+(* … more precisely: Err, or exactly what the C16 reader of that format returns *)
+Theorem palette_load_cases : forall f s,
+  palette_load f s = PalErr \/
+  exists m l, palette_model f = Some m /\ PaletteFiles.load m s = Some l /\ palette_load f s = PalOk l.
+Proof. exact palette_load_cases_proof. Qed.
 
-Theorem known_1_witness : KnownC02_1 PAse /\ palette_model PAse = None.
-Proof. exact (conj eq_refl eq_refl). Qed.
+Theorem palette_export_total : forall f p, palette_export f p <> None.
+Proof. exact palette_export_total_proof. Qed.
+
+Theorem palette_ase_refused : (forall s, palette_load PAse s = PalErr) /\ (forall p, palette_export PAse p = Some []).
+Proof. exact ase_refused_proof. Qed.
+
+(* the code before the fix (PaletteFormat::Ase => todo!() in both functions) panicked on every call with Ase, and
+   behaved like the present code for every other variant *)
+Theorem known_1_witness :
+  KnownC02_1 PAse /\ (forall s, palette_load_with todo_arm PAse s = PalPanic) /\
+  (forall p, palette_export_with todo_arm PAse p = None) /\
+  (forall f, ~ KnownC02_1 f -> forall s, palette_load_with todo_arm f s = palette_load f s).
+Proof. exact known_1_witness_proof. Qed.
+
+(* non-vacuity: "ff00aa" is one colour for Hex, an error for JASC-PAL (no magic line), refused for Ase *)
+Example palette_load_sample :
+  let ff00aa := [102; 102; 48; 48; 97; 97]%N in
+  palette_load PHex ff00aa = PalOk [(255, 0, 170)%N] /\
+  palette_load PPal ff00aa = PalErr /\ palette_load PAse ff00aa = PalErr /\
+  palette_export PHex (Palette.of_colors [Palette.unnamed (255, 0, 170)%N]) = Some (ff00aa ++ [10%N]).
+Proof. vm_compute. repeat split. Qed.
 
 (* ------------------------------------------------------------------------------ binary loaders, ALL byte strings *)
 (* Bin::load_buffer: never panics, and the row loop terminates because the width set by any SAUCE record is >= 1 *)
